@@ -5,6 +5,7 @@ Node ids in a case are natural-number codes; `ids` selects how a code becomes a 
 object ('int', 'str', 'mix').  Python-equal ids map to the same code.
 """
 import sys, os, io, json, itertools
+from functools import partial as _partial
 sys.dont_write_bytecode = True
 REPO = os.environ.get("DYNETX_REPO", "/repo")
 if REPO not in sys.path:
@@ -24,7 +25,8 @@ _MIX = {}
 
 # string ids: a precomposed accent, and labels that are NOT in Unicode normal form C (decomposed accent, OHM SIGN, ANGSTROM SIGN):
 # text is data, nothing may normalise it
-_STR_NAMES = ["a", "C:\\d", '"q"', "\u00e9", "e\u0301", "\u2126", "\u212b", "o'k", "b", "c", "k", "l", "m", "n", "o", "p", "q", "r", "s", "t", "u", "v",
+# (codes 4 and 5 also carry characters whose UTF-16 code units contain the bytes 0x0A / 0x0D: U+4E0A, U+010A, U+4E0D)
+_STR_NAMES = ["a", "C:\\d", '"q"', "\u00e9", "e\u0301\u4e0a", "\u2126\u010a\u4e0d", "\u212b", "o'k", "b", "c", "k", "l", "m", "n", "o", "p", "q", "r", "s", "t", "u", "v",
               "w", "x", "y", "z"]
 
 
@@ -194,6 +196,12 @@ class Impl:
                 ts = [t for t in range(lo, hi + 1) if (G.has_interaction(u, v, qt(t)) if t % 2 else G.has_interaction(u, v, t=qt(t)))]
                 if flat or ts:
                     out.append([a, b, flat, ts])
+                # a run is a set of snapshot ids: an instant between two ids is not in it (removal-enabled graphs; impl-only probe,
+                # reported as an extra row that the model never produces)
+                if flat and G.edge_removal:
+                    fr = [t + 0.5 for t in range(lo, hi) if abs(t) < 2 ** 40 and G.has_interaction(u, v, t + 0.5)]       # t + 0.5 is exact there
+                    if fr:
+                        out.append(["frac", a, b, fr])
         return out
 
     # ---- the interpreter
@@ -719,7 +727,7 @@ class Impl:
                 H = rd(p, directed=bool(int(cls)), nodetype=int, timestamptype=int, keys=True)
             except Exception as ex:  # noqa
                 main_exc = ex
-            for nt, tt in ((_strict(int, KeyError), _strict(int, ZeroDivisionError)),):
+            for nt, tt in ((_strict(int, KeyError), _strict(int, ZeroDivisionError)), (_partial(int), _partial(int, base=10))):
                 try:
                     rd(p, directed=bool(int(cls)), nodetype=nt, timestamptype=tt, keys=True)
                     other = None
@@ -729,6 +737,15 @@ class Impl:
                     return "converter-exception-leaks:%s-instead-of-%s" % (type(other).__name__, type(main_exc).__name__)
             if main_exc is not None:
                 raise main_exc
+            # the same rows in a file whose last row has no line terminator, and with CRLF terminators (impl-only cross check)
+            if lines:
+                for nm, txt in (("no-final-newline", "\n".join(lines)), ("crlf", "".join(l + "\r\n" for l in lines))):
+                    p2 = os.path.join(tmp, "k2.txt")
+                    with open(p2, "w", newline="") as fh:
+                        fh.write(txt)
+                    H2 = rd(p2, directed=bool(int(cls)), nodetype=int, timestamptype=int, keys=True)
+                    if self.dump(H2)["tl"] != self.dump(H)["tl"] or self.dump(H2)["ev"] != self.dump(H)["ev"]:
+                        return "file-read-differently:" + nm
         finally:
             shutil.rmtree(tmp, ignore_errors=True)
         self.slots[int(dst)] = H
@@ -945,6 +962,14 @@ class Impl:
                     e["outdeg1"] = guard(lambda: dd(G.out_degree(n, t)))
                 e["hasnode"] = guard(lambda: 1 if G.has_node(n, t) else 0)
                 e["deg1"] = guard(lambda: dd(G.degree(n, t)))
+                # the functional forms with a single node as nbunch answer like the methods (impl-only cross check; the key is
+                # only there when they differ)
+                f1 = guard(lambda: dd(dn.degree(G, n, t)))
+                if f1 != e["deg1"]:
+                    e["f_deg1_differs"] = [repr(f1)[:80], repr(e["deg1"])[:80]]
+                i1 = guard(lambda: inter(dn.interactions(G, n, t))); i2 = guard(lambda: inter(G.interactions(n, t)))
+                if i1 != i2:
+                    e["f_inter1_differs"] = [repr(i1)[:120], repr(i2)[:120]]
                 if c != 99:
                     e["allnbrs"] = guard(lambda: sl(dn.all_neighbors(G, n, t)))
                     e["nonnbrs"] = guard(lambda: sl(dn.non_neighbors(G, n, t)))
@@ -976,6 +1001,10 @@ class Impl:
 
     def op_q4_obj(self, G, lo, hi):
         ipsd = G.interactions_per_snapshots()
+        # the functional form without t is the method's answer: same ids, same count for each id (impl-only cross check)
+        fd = dn.interactions_per_snapshots(G)
+        if not isinstance(fd, dict) or dict(fd) != dict(ipsd):
+            return "functional-interactions_per_snapshots-without-t-differs-from-the-method"
         return {"ids": list(G.temporal_snapshots_ids()), "f_ids": list(dn.temporal_snapshots_ids(G)),
                 "ips": [[t, self.num2(G.interactions_per_snapshots(t))] for t in range(int(lo), int(hi) + 1)],
                 "f_ips": [[t, self.num2(dn.interactions_per_snapshots(G, t))] for t in range(int(lo), int(hi) + 1)],
@@ -1183,6 +1212,15 @@ class Impl:
                 p.append((int(rest[i]), int(rest[i + 1]), int(rest[i + 2]))); i += 3
             paths.append(tuple(p))
         r = _paths.annotate_paths(paths)
+        # fractional instants (impl only): the duration of a path is last minus first, whatever the instants in between are,
+        # and 'fastest' holds exactly the paths of minimal duration
+        if paths and all(len(q) > 0 for q in paths):
+            fp = [tuple((a, b, t / 10.0) for a, b, t in q) for q in paths]
+            if any(_paths.path_duration(q) != q[-1][-1] - q[0][-1] for q in fp):
+                return "path_duration-is-not-last-minus-first:fractional-instants"
+            md = min(q[-1][-1] - q[0][-1] for q in fp)
+            if set(tuple(q) for q in _paths.annotate_paths(fp)["fastest"]) != set(q for q in fp if q[-1][-1] - q[0][-1] == md):
+                return "fastest-is-not-the-minimal-duration-set:fractional-instants"
         out = {}
         for key in ("shortest", "fastest", "foremost", "fastest_shortest", "shortest_fastest"):
             out[key] = [[list(h) for h in p] for p in r[key]]
@@ -1345,7 +1383,8 @@ class Impl:
             main_exc = ex
         # converters that signal failure with other exception classes (a lookup table, a parser of fractions):
         # "a field that cannot be converted raises TypeError" whatever the converter raises (impl-only cross check)
-        for nt, tt in ((_strict(int, KeyError), int), (int, _strict(int, ZeroDivisionError)), (_strict(int, OverflowError), _strict(int, ArithmeticError))):
+        for nt, tt in ((_strict(int, KeyError), int), (int, _strict(int, ZeroDivisionError)), (_strict(int, OverflowError), _strict(int, ArithmeticError)),
+                       (_partial(int), _partial(int, base=10))):      # callables without __name__
             try:
                 fn(lines, comments=chr(int(comment)), directed=bool(int(cls)), delimiter=d, nodetype=nt, timestamptype=tt)
                 other = None
